@@ -5,6 +5,7 @@ package harness
 
 import (
 	"encoding/json"
+	"flag"
 	"fmt"
 	"hash/fnv"
 	"os"
@@ -13,6 +14,7 @@ import (
 	"strconv"
 	"strings"
 	"sync"
+	"sync/atomic"
 	"testing"
 	"time"
 
@@ -78,6 +80,7 @@ type Rec struct {
 	start       time.Time
 	journal     string
 	required    []string
+	truncated   []string
 }
 
 func tier() string {
@@ -285,7 +288,27 @@ func (r *Rec) Run(t failer, desc interface{}, nontrivial bool, classes []string,
 // Rapid runs a rapid property as a sub-test so that Finish still executes after
 // rapid has failed the (sub-)test.
 func (r *Rec) Rapid(t *testing.T, name string, prop func(*rapid.T)) bool {
-	return t.Run(name, func(t *testing.T) { rapid.Check(t, prop) })
+	want := 100
+	if f := flag.Lookup("rapid.checks"); f != nil {
+		if n, err := strconv.Atoi(f.Value.String()); err == nil {
+			want = n
+		}
+	}
+	var ran int64
+	ok := t.Run(name, func(t *testing.T) {
+		rapid.Check(t, func(rt *rapid.T) {
+			atomic.AddInt64(&ran, 1)
+			prop(rt)
+		})
+	})
+	// rapid stops quietly when the `go test` deadline approaches and still reports success: a run that was
+	// cut short must not pass for a complete one
+	if ok && int(atomic.LoadInt64(&ran)) < want {
+		r.mu.Lock()
+		r.truncated = append(r.truncated, fmt.Sprintf("%s: %d of %d cases before the time limit", name, ran, want))
+		r.mu.Unlock()
+	}
+	return ok
 }
 
 type statsFile struct {
@@ -358,6 +381,9 @@ func (r *Rec) Finish(t *testing.T) {
 	}
 	if jp := os.Getenv("VERIF_JOURNAL"); jp != "" {
 		_ = os.Remove(jp + ".fail")
+	}
+	if len(r.truncated) > 0 && r.lastFail == nil {
+		fmt.Printf("\nVERIF-INCONCLUSIVE property=%s time limit reached: %v\n", r.Prop, r.truncated)
 	}
 	if len(sf.Missing) > 0 && r.lastFail == nil {
 		fmt.Printf("\nVERIF-INCONCLUSIVE property=%s generator never produced class(es) %v\n", r.Prop, sf.Missing)
